@@ -13,7 +13,7 @@ LEVEL = 'exploration'
 RULE = ('(1) Exhaustive: for each stream-carrying model (request-response, stream, channel) x role of the real endpoint '
         '(requester / responder) x endpoint kind (client / server), every sequence up to length L over the alphabet '
         '{protocol-legal peer frames from a harness-scripted raw peer: PAYLOAD(next), PAYLOAD(next|complete), '
-        'PAYLOAD(complete), ERROR, REQUEST_N, CANCEL where the peer\'s role has it} + {local actions: request(n), cancel, '
+        'PAYLOAD(complete), ERROR, ERROR with data that is not UTF-8 text, REQUEST_N, CANCEL where the peer\'s role has it} + {local actions: request(n), cancel, '
         'emit element, complete, fail, resolve / fail the handler future} + {connection events: EOF, transport error, '
         'local close()} (the raw peer never sends after its own terminal frame; at most one connection event). '
         '(2) Random: Hypothesis SimNet programs with two real endpoints, all endings, fragmentation, followed by a '
@@ -34,10 +34,10 @@ def alphabet(k, role):
     conn = [('x', 'eof'), ('x', 'error'), ('x', 'close')]
     if role == 'requester':
         if k == 'rr':
-            return [('p', 'next_complete'), ('p', 'error'), ('l', 'cancel', 'resp')] + conn
+            return [('p', 'next_complete'), ('p', 'error'), ('p', 'error_bin'), ('l', 'cancel', 'resp')] + conn
         if k == 'st':
-            return [('p', 'next'), ('p', 'next_complete'), ('p', 'complete'), ('p', 'error'), ('l', 'req', 'resp'),
-                    ('l', 'cancel', 'resp')] + conn
+            return [('p', 'next'), ('p', 'next_complete'), ('p', 'complete'), ('p', 'error'), ('p', 'error_bin'),
+                    ('l', 'req', 'resp'), ('l', 'cancel', 'resp')] + conn
         return [('p', 'next'), ('p', 'next_complete'), ('p', 'complete'), ('p', 'error'), ('p', 'request_n'), ('p', 'cancel'),
                 ('l', 'req', 'resp'), ('l', 'cancel', 'resp'), ('l', 'emit', 'req'), ('l', 'end', 'req'),
                 ('l', 'fail', 'req')] + conn
@@ -69,7 +69,7 @@ def legal_sequences(k, role, depth):
                 kind = s[1]
                 if kind in ('next', 'next_complete', 'complete') and peer_closed:
                     continue
-                if kind == 'error':
+                if kind in ('error', 'error_bin'):
                     yield from rec(prefix + [s], True, True, conn_done)
                 elif kind == 'cancel':
                     # requester CANCEL ends the raw peer's part entirely; responder CANCEL (channel) only stops inbound
@@ -104,7 +104,11 @@ def build(real, k, role, seq, msg=False, frag=None, tight=False):
     for s in seq:
         if s[0] == 'p':
             arg = 2 if s[1] == 'request_n' else None
-            ops.append(['rawf', 0, s[1], arg])
+            if s[1] == 'error_bin':
+                # an ERROR whose data is not UTF-8 text (binary error details; alternately the two kinds of error code)
+                ops.append(['rawf', 0, 'error', 'bin' if len(seq) % 2 else 'bin_rejected'])
+            else:
+                ops.append(['rawf', 0, s[1], arg])
             if tight:
                 ops.append(['deliver', raw, None])
                 continue
@@ -132,7 +136,7 @@ def build(real, k, role, seq, msg=False, frag=None, tight=False):
 def seq_nontrivial(seq):
     term = None
     for i, s in enumerate(seq):
-        t = (s[0] == 'x') or (s[0] == 'p' and s[1] in ('next_complete', 'complete', 'error', 'cancel')) or \
+        t = (s[0] == 'x') or (s[0] == 'p' and s[1] in ('next_complete', 'complete', 'error', 'error_bin', 'cancel')) or \
             (s[0] == 'l' and s[1] in ('cancel', 'end', 'fail', 'resolve', 'failfut'))
         if term is not None:
             return True
@@ -157,7 +161,7 @@ def enum_shard(tier, seed, real, k, role, depth, part, parts, tight=False):
         prog = build(real, k, role, seq, msg=(idx % 5 == 4), tight=tight)
         tr = run_program(prog)
         end_event = any(s[0] == 'x' for s in seq) or (role == 'requester' and any(
-            s[0] == 'p' and s[1] in ('next_complete', 'error') for s in seq))
+            s[0] == 'p' and s[1] in ('next_complete', 'error', 'error_bin') for s in seq))
         vs = judge_trace(tr, end_event and k == 'rr' and role == 'requester')
         n += 1
         nt = seq_nontrivial(seq)
